@@ -100,8 +100,9 @@ class C07(Prop):
                 if not tor:
                     s["pkg"] = "py"
                 yield s
-        for s in self._wide():
-            yield s
+        for nw in (36, 70):
+            for s in self._wide(nw):
+                yield s
         from .c03 import group_elements
         for bi, (n, m, e) in enumerate(self.big):
             rows = ins_to_state(m)
@@ -121,11 +122,10 @@ class C07(Prop):
                     yield {"k": "overlap", "rows": rows, "r": r, "other": {"rows": ins_to_state(m2), "r": rng.randrange(n + 1)}}
                 yield {"k": "prob", "rows": rows, "r": r, "bits": bits if n <= 3 else bits[::3]}
 
-    def _wide(self):
-        """a wide register (N = 36) in a highly mixed product state: only the last 3 qubits carry (signed) stabilizers,
+    def _wide(self, n=36):
+        """a wide register (N = 36; N = 70, across the 64-bit word boundary) in a highly mixed product state: only the last 3 qubits carry (signed) stabilizers,
         so the stabilizer group has 8 elements and TLC can still decide every expectation value"""
         rng = self.rng
-        n = 36
         m = []
         for q in range(n):
             m1 = rng.choice(self.maps[1])
@@ -145,7 +145,7 @@ class C07(Prop):
         terms.append({"p": two, "c": [2, 1]})
         for _ in range(4):
             w = [0] * n + [rng.randrange(4)]
-            w[rng.randrange(30, n)] = rng.randrange(1, 4)
+            w[rng.randrange(n - 6, n)] = rng.randrange(1, 4)
             w[rng.randrange(0, 5)] = rng.randrange(0, 4)
             terms.append({"p": w, "c": [1, 1]})
         obs = [t["p"][:-1] + [rng.choice((0, 2))] for t in terms]
